@@ -700,7 +700,7 @@ def conformance_v1(v, sc, binary, cfg, rec):
                 first_unexplained=[json.loads(open(rec["all"]).readlines()[w - 1]) for w in where][:3])
 
 
-def v1_property(pid, tier, kinds, nontrivial, rule, level="model_checking", models=None, runs=(250, 4000), simple=False, extra=None):
+def v1_property(pid, tier, kinds, nontrivial, rule, level="model_checking", models=None, runs=(250, 4000), simple=False, extra=None, post=None):
     v = Verdict(pid, tier, level)
     with Scratch(pid.lower() + "v1") as sc:
         binary = os.path.join(sc, "prioh.test")
@@ -750,6 +750,8 @@ def v1_property(pid, tier, kinds, nontrivial, rule, level="model_checking", mode
                 t7 = [j for j, e in enumerate(events, 1) if e["e"] == "Reset"][7]
                 v.sample(dict(observed_trace=[(e["e"], e.get("p"), e.get("c"), e.get("k")) for e in trace_at(events, t7)][:60]))
         v.assumptions += ["Go 1.26.8 testing/synctest virtual clock", "TLC", "seeded random gated schedules (not a transition cover) on the v1 code"]
+    if post:
+        post(v)
     return v.finish()
 
 
@@ -769,7 +771,10 @@ def models_C16(v, sc, binary):
 def check_C16(tier):
     def extra_join(v):
         pass
-    return v1_property("C16", tier, ["stop"], level="fault_enumeration", simple=True,
+    def join_part(v):
+        import join
+        join.check_C16_join(tier, v)     # v1 join: Stop returns, output closed, in-order duplicate-free subsequence
+    return v1_property("C16", tier, ["stop"], level="fault_enumeration", simple=True, post=join_part,
                        nontrivial=lambda t: has(t, "Stop", "Cancel") and t["R"] >= 1,
                        rule="TLC: (stop or cancel requested) ~> terminated on the PrioV1 specification under scheduler fairness only (no environment help), with a "
                             "regression twin (the loop of the pinned tree must exhibit the F3 lasso); real code: seeded gated schedules inject Stop()/cancel at a "
